@@ -3,7 +3,7 @@
    has, at every evaluation, exactly its documented Boolean meaning (psem): the value depends on
    the solver view only, never on the cached counters, hence never on when the callback was
    created, to which fit() calls it was passed, or which operands were skipped earlier. *)
-From Coq Require Import ZArith List Bool Lia.
+From Coq Require Import String ZArith List Bool Lia.
 From ND.model Require Import Callbacks.
 From ND.proofs Require Import C16_pred C16_actions.
 Import ListNotations.
@@ -28,7 +28,7 @@ Proof.
   - intros q IH. rewrite not_spec, IH. reflexivity.
   - intros l HF. rewrite xor_spec, psem_xor. f_equal. induction HF as [|q r Hq _ IH]; [reflexivity|].
     cbn [map]. rewrite Hq, IH. reflexivity.
-  - intros k tr n s. unfold cond. cbn [step fst psem]. apply leaf_fires.
+  - intros k tr mt n s. unfold cond. cbn [step fst psem]. apply leaf_fires.
 Qed.
 
 (* evaluating a callback changes cached counters only, which psem never reads *)
@@ -76,12 +76,12 @@ Qed.
 
 (* what used to be the recorded deviations, now instances of the theorem *)
 Example late_attachment_ok :
-  cond (mkView 1 4 2 [4; 3; 2; 1] []) (repeated (RUp 0) true 2) = true.
+  cond (mkView 1 4 2 [4; 3; 2; 1] [] []) (repeated (RUp 0) true 2) = true.
 Proof. reflexivity. Qed.
 
 Example short_circuit_ok :
   let p := POr [period_local 4 0; repeated (RUp 0) true 2] in
-  fst (run_pred p [mkView 1 1 5 [1] []; mkView 2 2 5 [2; 1] []; mkView 3 3 5 [3; 2; 1] [];
-                   mkView 4 4 5 [0; 3; 2; 1] []; mkView 5 5 5 [1; 0; 3; 2; 1] []])
+  fst (run_pred p [mkView 1 1 5 [1] [] []; mkView 2 2 5 [2; 1] [] []; mkView 3 3 5 [3; 2; 1] [] [];
+                   mkView 4 4 5 [0; 3; 2; 1] [] []; mkView 5 5 5 [1; 0; 3; 2; 1] [] []])
   = [false; false; true; true; false].
 Proof. reflexivity. Qed.
